@@ -611,6 +611,9 @@ public:
             plan["ompl_seed"] = (long)g.range(1, 2000000000);
             plan["repeat_states"] = g.chance(0.2);
             plan["ops"] = c17::genOps(g, o.thorough());
+            // (drawn last so that earlier plans keep their meaning) a path whose states are all the same state: total length 0
+            if (g.chance(0.04))
+                plan["degenerate"] = (long)g.range(2, 5);
             return plan;
         }
         auto el = eligible(o);
